@@ -1364,8 +1364,8 @@ class WcParse(Generic[AnyStr]):
                     # Replace the last path separator
                     current[-1] = _NEED_SEP.format(self.sep)
                     current.append(value)
-                self.consume_path_sep(i)
                 current.append(sep)
+            self.consume_path_sep(i)
             self.set_start_dir()
         else:
             current.append(value)
